@@ -242,22 +242,40 @@ theorem tokPos_advance (T tok : Text) (l c k p : Nat) (h : TokPos T tok l c k) (
     adv_noNL _ _ (tok_take_noNL tok h.ok p hp)]
   simp only [List.length_take, Nat.min_eq_left (Nat.le_of_lt hp)]
 
-/-- what a mapped chunk delivered by the ReplaceSource says, with the table of announced files `F` -/
-def TrueAt (F : SrcTbl) (mm : Mapping) : Prop :=
-  mm.orig = none ∨ ∃ name T q y, mm.orig = some y ∧ F y.src = some (name, some T) ∧ q < T.length ∧ adv startPos (T.take q) = ⟨y.line, y.col⟩
+theorem bsub_of_prefix_drop (T tok : Text) (k p q : Nat) (h : tok <+: T.drop k) (hq : q ≤ tok.length) :
+    bsub tok p q = bsub T (k + p) (k + q) := by
+  obtain ⟨r, hr⟩ := h
+  unfold bsub
+  have e1 : T.drop (k + p) = tok.drop p ++ (if p ≤ tok.length then r else r.drop (p - tok.length)) := by
+    rw [← List.drop_drop, ← hr, List.drop_append]
+    by_cases hp : p ≤ tok.length
+    · simp [hp, Nat.sub_eq_zero_of_le hp]
+    · simp only [hp, if_false]
+  rw [e1, List.take_append_of_le_length (by simp only [List.length_drop]; omega)]
+  congr 1; omega
 
-theorem rEvs_prov :
+/-- what a chunk delivered by the ReplaceSource says, with the table of announced files `F`: it is unmapped, or it names a file `T`
+of the table and the true line and column of a byte `q` of `T`, and its text is a piece `T[q..q')` of that file starting at that
+very byte — byte `j` of the piece being byte `q + j` of `T`, on the reported line at the reported column plus `j` — or a line of
+the content of one of the replacements `RS` -/
+def TrueAt (RS : List Repl) (F : SrcTbl) (t' : Option Text) (mm : Mapping) : Prop :=
+  mm.orig = none ∨ ∃ name T q y, mm.orig = some y ∧ F y.src = some (name, some T) ∧ q < T.length ∧ adv startPos (T.take q) = ⟨y.line, y.col⟩
+    ∧ ((∃ q', q < q' ∧ q' ≤ T.length ∧ t' = some (bsub T q q') ∧ ∀ j, j < q' - q → adv startPos (T.take (q + j)) = ⟨y.line, y.col + j⟩) ∨ (∃ r ∈ RS, ∃ cl ∈ splitLines r.content, t' = some cl))
+
+theorem rEvs_prov (RS : List Repl) :
     ∀ (evs : List Ev) (st : RSt) (S : SrcTbl), CT st S → ProvOK S evs →
     (∀ i name T, S i = some (name, some T) → IsAscii T ∧ T.length < USIZE_MAX) →
     (∀ i s T, Ev.source i s (some T) ∈ evs → IsAscii T ∧ T.length < USIZE_MAX) →
+    (∀ r ∈ st.rest, r ∈ RS) →
     ∀ t' mm, Ev.chunk t' mm ∈ (rEvs st evs).2 →
       mm.orig = none ∨ ∃ S' name T q y, mm.orig = some y ∧ S' y.src = some (name, some T) ∧ q < T.length ∧ adv startPos (T.take q) = ⟨y.line, y.col⟩
+        ∧ ((∃ q', q < q' ∧ q' ≤ T.length ∧ t' = some (bsub T q q') ∧ ∀ j, j < q' - q → adv startPos (T.take (q + j)) = ⟨y.line, y.col + j⟩) ∨ (∃ r ∈ RS, ∃ cl ∈ splitLines r.content, t' = some cl))
         ∧ ∃ pre post, evs = pre ++ post ∧ S' = tblS S pre := by
   intro evs
   induction evs with
-  | nil => intro st S _ _ _ _ t' mm h; simp [rEvs] at h
+  | nil => intro st S _ _ _ _ _ t' mm h; simp [rEvs] at h
   | cons e es ih =>
-    intro st S hct hp hS hE t' mm h
+    intro st S hct hp hS hE hrest t' mm h
     have hE' : ∀ i s T, Ev.source i s (some T) ∈ es → IsAscii T ∧ T.length < USIZE_MAX := fun i s T hm => hE i s T (List.mem_cons_of_mem _ hm)
     simp only [rEvs, List.mem_append] at h
     cases e with
@@ -271,17 +289,29 @@ theorem rEvs_prov :
           subst p2
           obtain ⟨hTa, hTl⟩ := hS a.src name T p1
           have hfm := fm_of_tokPos T hTa hTl tok a k p3 st.contents (hct a.src name (some T) p1)
-          obtain ⟨p, hpl, y, y1, y2, y3, y4⟩ := rOnChunk_adv st tok p3.ne m a hmo hfm _ mm h
+          obtain ⟨p, hpl, ⟨y, y1, y2, y3, y4⟩, hkind⟩ := (rOnChunk_adv RS st tok p3.ne m a hmo hfm hrest).1 _ mm h
           obtain ⟨q1, q2⟩ := tokPos_advance T tok a.line a.col k p p3 hpl
-          exact Or.inr ⟨S, name, T, k + p, y, y1, by rw [y2]; exact p1, q1, by rw [y3, y4]; exact q2, [], _, rfl, rfl⟩
+          refine Or.inr ⟨S, name, T, k + p, y, y1, by rw [y2]; exact p1, q1, by rw [y3, y4]; exact q2, ?_, [], _, rfl, rfl⟩
+          rcases hkind with ⟨q, hq1, hq2, hq3⟩ | hk
+          · refine Or.inl ⟨k + q, by omega, ?_, by rw [hq3, bsub_of_prefix_drop T tok k p q p3.pre hq2], ?_⟩
+            · obtain ⟨r, hr⟩ := p3.pre
+              have := congrArg List.length hr
+              simp only [List.length_append, List.length_drop] at this
+              omega
+            · intro j hj
+              have := (tokPos_advance T tok a.line a.col k (p + j) p3 (by omega)).2
+              rw [y3, y4, Nat.add_assoc k p j, this, Nat.add_assoc]
+          · exact Or.inr hk
       · have hct' : CT (rEv st (.chunk t m)).1 S := by
           intro i name c hi
           simp only [rEv]
           rw [(rOnChunk_keeps st (t.getD []) m).2.1]
           exact hct i name c hi
-        rcases ih _ S hct' hp.2 hS hE' t' mm h with h0 | ⟨S', name, T, q, y, y1, y2, y3, y4, pre, post, e1, e2⟩
+        have hrest' : ∀ r ∈ (rEv st (.chunk t m)).1.rest, r ∈ RS := by
+          simp only [rEv]; exact fun r hr => hrest r (rOnChunk_restSub st (t.getD []) m r hr)
+        rcases ih _ S hct' hp.2 hS hE' hrest' t' mm h with h0 | ⟨S', name, T, q, y, y1, y2, y3, y4, y5, pre, post, e1, e2⟩
         · exact Or.inl h0
-        · exact Or.inr ⟨S', name, T, q, y, y1, y2, y3, y4, Ev.chunk t m :: pre, post, by rw [e1]; rfl, by rw [e2]; rfl⟩
+        · exact Or.inr ⟨S', name, T, q, y, y1, y2, y3, y4, y5, Ev.chunk t m :: pre, post, by rw [e1]; rfl, by rw [e2]; rfl⟩
     | source i s c =>
       rcases h with h | h
       · simp [rEv] at h
@@ -306,17 +336,19 @@ theorem rEvs_prov :
             exact hE j s T (by rw [← hj.2]; simp)
           · simp only [hji, if_false] at hj
             exact hS j name T hj
-        rcases ih _ _ hct' hp hS' hE' t' mm h with h0 | ⟨S', name, T, q, y, y1, y2, y3, y4, pre, post, e1, e2⟩
+        have hrest' : ∀ r ∈ (rEv st (.source i s c)).1.rest, r ∈ RS := by simp only [rEv]; exact hrest
+        rcases ih _ _ hct' hp hS' hE' hrest' t' mm h with h0 | ⟨S', name, T, q, y, y1, y2, y3, y4, y5, pre, post, e1, e2⟩
         · exact Or.inl h0
-        · exact Or.inr ⟨S', name, T, q, y, y1, y2, y3, y4, Ev.source i s c :: pre, post, by rw [e1]; rfl, by rw [e2]; rfl⟩
+        · exact Or.inr ⟨S', name, T, q, y, y1, y2, y3, y4, y5, Ev.source i s c :: pre, post, by rw [e1]; rfl, by rw [e2]; rfl⟩
     | name i n =>
       rcases h with h | h
       · simp only [rEv] at h
         exact absurd h (globalName_noChunkMem _ _ t' mm)
       · have hct' : CT (rEv st (.name i n)).1 S := fun j name c hj => hct j name c hj
-        rcases ih _ S hct' hp hS hE' t' mm h with h0 | ⟨S', name, T, q, y, y1, y2, y3, y4, pre, post, e1, e2⟩
+        have hrest' : ∀ r ∈ (rEv st (.name i n)).1.rest, r ∈ RS := hrest
+        rcases ih _ S hct' hp hS hE' hrest' t' mm h with h0 | ⟨S', name, T, q, y, y1, y2, y3, y4, y5, pre, post, e1, e2⟩
         · exact Or.inl h0
-        · exact Or.inr ⟨S', name, T, q, y, y1, y2, y3, y4, Ev.name i n :: pre, post, by rw [e1]; rfl, by rw [e2]; rfl⟩
+        · exact Or.inr ⟨S', name, T, q, y, y1, y2, y3, y4, y5, Ev.name i n :: pre, post, by rw [e1]; rfl, by rw [e2]; rfl⟩
 
 theorem tblS_noSrc : ∀ (l : List Ev) (S : SrcTbl), NoSrc l → tblS S l = S := by
   intro l
@@ -376,12 +408,13 @@ end
 
 /-- **C04, ReplaceSource over any tree of OriginalSource and raw leaves under ConcatSource** (ASCII file contents, one content per
 file name): every chunk the ReplaceSource delivers is unmapped, or names — through the files the stream itself announces — a file
-`T` and a line and column that are the *true* position in `T` of some byte `q` of `T` (the byte at which the delivered piece was
-cut out of a potential token of `T`, or at which replacement content was spliced in) -/
+`T` and a line and column that are the *true* position in `T` of some byte `q` of `T`, and its text is the bytes `T[q..q')` of that
+very file starting at that very byte (a surviving piece of the original), or a line of the content of one of the replacements
+(spliced in at byte `q`) -/
 theorem replace_origTree_true (cons : Text → Option Text) (inner : Src) (ho : inner.OrigTree) (hw : Src.WD cons true inner)
     (hasc : ∀ n T, cons n = some T → IsAscii T ∧ T.length < USIZE_MAX) (rs : List Repl) (final : Bool) (σ : Store) :
     ∀ t' mm, Ev.chunk t' mm ∈ ((Src.replace inner rs).stream ⟨true, final⟩ σ).1.evs →
-      TrueAt (tblS emptyS ((Src.replace inner rs).stream ⟨true, final⟩ σ).1.evs) mm := by
+      TrueAt (sortRepls rs) (tblS emptyS ((Src.replace inner rs).stream ⟨true, final⟩ σ).1.evs) t' mm := by
   intro t' mm hmem
   simp only [Src.stream] at hmem ⊢
   generalize hr : (inner.stream ⟨true, false⟩ σ).1 = r at hmem ⊢
@@ -403,10 +436,10 @@ theorem replace_origTree_true (cons : Text → Option Text) (inner : Src) (ho : 
   rw [htbl]
   simp only [replaceStream] at hmem
   rcases List.mem_append.1 hmem with hmem | hmem
-  · rcases rEvs_prov r.evs { rest := sortRepls rs } emptyS (fun i name c h => by simp [emptyS] at h) hprov
-      (fun i name T h => by simp [emptyS] at h) hE t' mm hmem with h0 | ⟨S', name, T, q, y, y1, y2, y3, y4, pre, post, e1, e2⟩
+  · rcases rEvs_prov (sortRepls rs) r.evs { rest := sortRepls rs } emptyS (fun i name c h => by simp [emptyS] at h) hprov
+      (fun i name T h => by simp [emptyS] at h) hE (fun r hr => hr) t' mm hmem with h0 | ⟨S', name, T, q, y, y1, y2, y3, y4, y5, pre, post, e1, e2⟩
     · exact Or.inl h0
-    · refine Or.inr ⟨name, T, q, y, y1, ?_, y3, y4⟩
+    · refine Or.inr ⟨name, T, q, y, y1, ?_, y3, y4, y5⟩
       rw [e1] at hdecl ⊢
       obtain ⟨dpre, dpost⟩ := (declOK_append pre post 0 0).1 hdecl
       have hdom := (tblS_mono pre 0 0 emptyS dpre (fun i _ => rfl)).2
@@ -453,7 +486,7 @@ theorem replace_origTree_map (cons : Text → Option Text) (inner : Src) (ho : i
   obtain ⟨m, hm1, hm2⟩ := attrOf_mem _ _ hmem
   obtain ⟨t, ht⟩ := chunkMs_mem_ev _ m hm1
   -- the chunk is at a true position of a file of the stream's own table
-  rcases replace_origTree_true cons inner ho hw hasc rs false [] t m ht with h0 | ⟨name, T, q, y, y1, y2, y3, y4⟩
+  rcases replace_origTree_true cons inner ho hw hasc rs false [] t m ht with h0 | ⟨name, T, q, y, y1, y2, y3, y4, _⟩
   · rw [h0] at hm2; cases hm2
   · rw [y1] at hm2
     simp only [Option.some.injEq] at hm2
